@@ -293,6 +293,23 @@ class WrapperModel:
       if not loops:
         continue
       lp = loops[-1]
+      # a removal loop that can stop early (break / return inside it) does not visit every name
+      def leaves(stmts, depth=0):
+        for x in stmts:
+          if isinstance(x, ast.Return) or (isinstance(x, ast.Break) and depth == 0):
+            return True
+          if isinstance(x, (ast.FunctionDef, ast.ClassDef)):
+            continue
+          d2 = depth + 1 if isinstance(x, (ast.For, ast.While)) else depth
+          for fld in ('body', 'orelse', 'finalbody'):
+            if leaves(getattr(x, fld, []) or [], d2 if fld == 'body' else depth):
+              return True
+          for h in getattr(x, 'handlers', []) or []:
+            if leaves(h.body, depth):
+              return True
+        return False
+      if leaves(lp.body):
+        continue
       exc = None
       conds = [f for f in self.facts[n.id] if f[0] == 'c' and var in f[1]]
       okc = True
